@@ -72,6 +72,18 @@ var specs = map[string]spec{
 		},
 		Assumptions: commonAssumptions, Plain: true, QuickStride: 1, ThoroughStride: 1, QuickDeadline: 420, ThoroughDeadline: 3000,
 	},
+	"C07": {
+		LevelText: "bounded exhaustive enumeration of bundles from the C02 command grammar (names forced to collide) plus every single-rule mutation at every site (rename a reference, add an unused param/let, let named ij, undeclared call param, unknown callee, missing required param, drop a declaration, delete a command, both declaration styles); the compiler's accept/reject decision is compared with an independent reference rule checker, and every accepted program is rendered with all params supplied under an instrumented scope lookup that reports unbound names",
+		LevelNote: "reference rule checker in harness/ref_cmd.go is the trusted base; programs whose status is ambiguous under the statement (a param passed on only by data=\"all\" while a same-named let exists) are not generated; the unbound-lookup probe exists only in the instrumented build",
+		Technique: "bounded exhaustive exploration of programs and single-site mutations against a reference rule checker, with an instrumented probe on the runtime name lookup",
+		Level:     "model_checking",
+		Rule:      "a state is a distinct bundle (body x declarations x mutation); a transition is one compilation (plus one probed render when accepted); every case is non-trivial (a verdict accept/reject is compared)",
+		Bounds: map[string]string{
+			"quick":    "all C02 bodies unmutated; mutations (7 site kinds at every site, declaration drops, unused param, both declaration styles) on every third body",
+			"thorough": "mutations on every body; nested blocks over inner lists of <=2 leaves",
+		},
+		Assumptions: commonAssumptions, Plain: true, QuickStride: 1, ThoroughStride: 2, QuickDeadline: 420, ThoroughDeadline: 3000,
+	},
 	"C05": {
 		LevelText: "bounded exhaustive exploration of the real parser: every input of the stated small scopes is parsed under a controlled scheduler with a deterministic linear fuel bound (no wall clock), and small inputs under every parser/scanner interleaving up to 2 preemptions; termination, no panic, no deadlock and tree-xor-error are checked on every execution and every case is replayed on the uninstrumented build",
 		LevelNote: "assumes the bounded scopes are representative (small-scope hypothesis) and that the overlay instrumentation preserves behaviour (cross-checked case by case against the plain build)",
